@@ -240,6 +240,8 @@ class RepeatedNodeWrapper(MutableSequence[_M]):
         values = list(values)
         index = len(self._repeated.items)
         self._insert_tokens(index, values)
+        for value in values:
+            value.reattach(self._repeated.token_store)
         self._repeated.items.extend(values)
         self._notify_splice(index, index, values)
 
